@@ -613,6 +613,14 @@ def rule_csv(ctx):
         if tgt is not None and _re2.sub(r"__[A-Za-z_]+\d+$", "", tgt) in plist:
             problems.append("`%s` modifies the list passed as %s= in place: the caller's list is changed and the decoration leaks "
                             "into the next export that reuses it" % (unparse(sub)[:70], _re2.sub(r"__[A-Za-z_]+\d+$", "", tgt)))
+    # the caller's csv options reach the writer
+    if fi.node.args.kwarg is not None:
+        kwn = fi.node.args.kwarg.arg
+        for c_ in walk_shallow(fi.node):
+            if isinstance(c_, ast.Call) and ast.unparse(c_.func) in ("csv.writer", "writer") and not any(
+                    k.arg is None and isinstance(k.value, ast.Name) and k.value.id == kwn for k in c_.keywords):
+                problems.append("`%s` does not pass **%s on: the csv options the caller asked for (delimiter, quoting, dialect ...) are "
+                                "dropped and the rows do not parse back with that dialect" % (unparse(c_)[:70], kwn))
     # lineterminator default
     if "lineterminator" not in ast.unparse(fi.node):
         problems.append("lineterminator default is gone")
